@@ -159,7 +159,7 @@ def getters(ctx):
             if x[0] == 'pre' and x[1][0] == ('obj', 1):
                 return ('pre', (('obj', 1), ('f', 'loco_con')) + x[1][1:])
             if x[0] == 'seq':
-                return ('seq', tuple(tuple(((('obj', 1), ('f', 'loco_con')) + y[1:]) if (isinstance(y, tuple) and y and y[0] == ('obj', 1)) else y for y in src) for src in x[1]), x[2])
+                return ('seq', tuple(tuple(((('obj', 1), ('f', 'loco_con')) + y[1:]) if (isinstance(y, tuple) and y and y[0] == ('obj', 1)) else y for y in src) for src in x[1]), x[2]) + x[3:]
             return x
         return T(map_term(ca.ret(), rr))
     getter('SpeedLimitTrainSim::get_kilometers', lambda ga: ST('total_dist') / 1000 * K(ga), 'km = total_dist[km]·k')
@@ -213,7 +213,7 @@ def getters(ctx):
                 if x[0] == 'pre' and x[1][0] == ('val', 2):
                     return ('pre', (('val', 2),) + x[1][1:])
                 if x[0] == 'seq':
-                    return ('seq', tuple(tuple((src + (('idx', ('bound', lvl)),) + y[1:]) if (isinstance(y, tuple) and y and y[0] == ('obj', 1)) else y for y in s_) for s_ in x[1]), x[2])
+                    return ('seq', tuple(tuple((src + (('idx', ('bound', lvl)),) + y[1:]) if (isinstance(y, tuple) and y and y[0] == ('obj', 1)) else y for y in s_) for s_ in x[1]), x[2]) + x[3:]
                 return x
             want = map_term(ea.ret(), rr)
             ok = t[1][2] == want
